@@ -113,6 +113,13 @@ def check_batch(run, b, nrand, valgrind=False):
         for hb in r.sample([0x800, 0x1000, 0x2000, 0x4000, 0x8000, 0xF800], 2):
             if all((fid | hb) != i for _, i, _ in b.can_bindings):
                 probes.append(("the binding's id with high bits set (id | 0x%X)" % hb, fid | hb, bus))
+        # (bus, id) pairs whose TEXT runs into the binding's when bus name and decimal id are written one
+        # after the other: bus "a1" id 2 / bus "a" id 12
+        sid_ = str(fid)
+        if len(sid_) >= 2 and sid_[1] != "0" and len(bus) < 4 and (int(sid_[1:]), bus + sid_[0]) not in used:
+            probes.append(("a digit of the id moved to the end of the bus name", int(sid_[1:]), bus + sid_[0]))
+        if len(bus) > 1 and bus[-1].isdigit() and bus[-1] != "0" and int(bus[-1] + sid_) <= 65535 and (int(bus[-1] + sid_), bus[:-1]) not in used:
+            probes.append(("the last digit of the bus name moved to the front of the id", int(bus[-1] + sid_), bus[:-1]))
         for what, pid, pbus in probes:
             frame = "%d %s %d %s" % (pid, bus_hex(pbus), 8, "00" * 8)
             for op in ("CSD", "CDD"):
